@@ -175,11 +175,12 @@ const (
 	entChildGetter
 	entListElem
 	entListObj
+	entStringNoSepAtRead
 	numC02Entries
 )
 
 func (e c02Entry) String() string {
-	return [...]string{"String getter", "Unpack->map", "Unpack->struct", "Child+String", "list element + String(idx)", "object in list + Child(idx)+String"}[e]
+	return [...]string{"String getter", "Unpack->map", "Unpack->struct", "Child+String", "list element + String(idx)", "object in list + Child(idx)+String", "String getter, read without the PathSep option"}[e]
 }
 
 type c02Order int
@@ -236,6 +237,9 @@ func c02Build(text string, ent c02Entry, ord c02Order, opts []ucfg.Option) (*ucf
 
 func c02Read(c *ucfg.Config, ent c02Entry, opts []ucfg.Option) (string, error) {
 	switch ent {
+	case entStringNoSepAtRead:
+		// the paths of an expression are fixed when it is parsed: reading does not need PathSep
+		return c.String("k", -1, opts[1:]...)
 	case entString:
 		return c.String("k", -1, opts...)
 	case entUnpackMap:
@@ -518,7 +522,7 @@ func init() {
 	core.Register(&core.Check{
 		ID:    "C02",
 		Level: "exploration",
-		Rule:  "every expression over the constructors {literal (incl. $ } : escapes), ${n}, ${n:E}, ${n:+E}, ${n:?E}, computed names, concatenation} up to the stated operator depth, for 11 names placed in root / Env1 / Env2 / resolver1 / resolver2 / several / none (dotted names whose prefix exists in the root included), x 9 layer configurations x 6 read entries / placements (top level, nested object, list element, object inside a list) x 3 definition orders is evaluated by the implementation and by the reference evaluator; non-trivial = a referenced name is defined in >=2 layers or in none",
+		Rule:  "every expression over the constructors {literal (incl. $ } : escapes), ${n}, ${n:E}, ${n:+E}, ${n:?E}, computed names, concatenation} up to the stated operator depth, for 11 names placed in root / Env1 / Env2 / resolver1 / resolver2 / several / none (dotted names whose prefix exists in the root included), x 9 layer configurations x 7 read entries / placements (top level, nested object, list element, object inside a list) x 3 definition orders is evaluated by the implementation and by the reference evaluator; non-trivial = a referenced name is defined in >=2 layers or in none",
 		Assumptions: []string{
 			"literals contain no text that parse.Value would re-type (digits, commas, brackets)",
 			"cases the statement leaves open (:+ on a set-but-empty name, text form of containers) are executed but not compared (undefined_by_model)",
